@@ -323,6 +323,32 @@ func (C05) Run(t *testing.T, plan *kernel.Plan, keepLog bool) *kernel.Result {
 				}
 			}
 		}
+		// MariaDB's direct execution (statement id -1 = the last statement prepared on the connection): a
+		// statement with one parameter is prepared, a statement the rules reject is sent for preparation,
+		// then id -1 is executed with one value. The database still holds the admitted statement.
+		directAt := -1
+		if mysql && plan.Sw("rawmy") == 1 && len(plan.Faults) == 0 && reuseAt < 0 {
+			templated := false
+			for _, h := range chain {
+				for _, p := range h.Patterns {
+					templated = templated || p.Template != ""
+				}
+			}
+			goodT := &c05Template{name: "direct_good", kind: "select", tables: []string{"t2"}}
+			badT := &c05Template{name: "direct_bad", kind: "select", tables: []string{"t1", "t3"}}
+			good := c05Stmt{tmpl: goodT, marker: 880000 + int(plan.Seed%1000), canon: "SELECT id, note FROM t2 WHERE id = ?"}
+			bad := c05Stmt{tmpl: badT, marker: 990000 + int(plan.Seed%1000), canon: "SELECT t1.id FROM t1 JOIN t3 ON t1.id = t3.id WHERE t1.id = ? AND t3.id = ? AND t3.note = 'm990000'"}
+			admitGood, _ := c05Verdict(chain, ignoreParse, good)
+			admitBad, _ := c05Verdict(chain, ignoreParse, bad)
+			if !templated && admitGood && !admitBad {
+				t2.Rows = append(t2.Rows, [][]byte{[]byte(fmt.Sprint(good.marker)), []byte(fmt.Sprintf("note-%d", good.marker))})
+				directAt = len(script)
+				script = append(script,
+					Stmt{SQL: good.canon, Extended: true, Args: []interface{}{int64(good.marker)}, PrepareOnly: true},
+					Stmt{SQL: bad.canon, Extended: true, Args: []interface{}{int64(1), int64(2)}, PrepareOnly: true},
+					Stmt{Direct: true, Extended: true, Args: []interface{}{int64(good.marker)}})
+			}
+		}
 		run := pw.RunSession(owner, script)
 		if w.Res.Cut {
 			return
@@ -446,6 +472,21 @@ func (C05) Run(t *testing.T, plan *kernel.Plan, keepLog bool) *kernel.Result {
 				w.Violate("C05", "served-after-rejection-uses-own-settings", site+"/named-statement", fmt.Sprintf("the statement prepared as %q, executed again by name after %q had been rejected under that name, returned err=%q rows=%.80q (first execution returned %q)", script[reuseAt].SQL, script[reuseAt+1].SQL, again.Err, again.Rows, want))
 			default:
 				w.Probe("named-statement-after-rejection")
+			}
+		}
+		if directAt >= 0 && len(run.Results) >= directAt+3 {
+			first, rejected, direct := run.Results[directAt], run.Results[directAt+1], run.Results[directAt+2]
+			switch {
+			case first.Err != "":
+				w.Violate("C05", "admitted-by-rules-is-served", site+"/direct-execution", fmt.Sprintf("preparing %q: err=%q", script[directAt].SQL, first.Err))
+			case !isBlocked(rejected):
+				w.Violate("C05", "rejected-by-rules-is-blocked", site+"/direct-execution", fmt.Sprintf("preparing %q: err=%q", script[directAt+1].SQL, rejected.Err))
+			case bytes.Contains(toDB, []byte("m990000")):
+				w.Violate("C05", "blocked-statement-never-forwarded", site+"/direct-execution", fmt.Sprintf("%q was answered with a firewall error but reached the database", script[directAt+1].SQL))
+			case direct.Err != "" || len(direct.Rows) != 1 || len(direct.Rows[0]) != 2 || string(direct.Rows[0][1]) != fmt.Sprintf("note-%s", direct.Rows[0][0]):
+				w.Violate("C05", "served-after-rejection-uses-own-settings", site+"/direct-execution", fmt.Sprintf("executing the last prepared statement (%q) after %q had been rejected returned err=%q rows=%.80q", script[directAt].SQL, script[directAt+1].SQL, direct.Err, direct.Rows))
+			default:
+				w.Probe("direct-execution-after-rejection")
 			}
 		}
 		w.State(fmt.Sprintf("chain=%d ignore=%v", len(chain), ignoreParse))
